@@ -99,6 +99,15 @@ def correspondence(v, st, prop, cmd, model_kind, tier, seed, replay=None, profil
         rc, out = vlib.run_harness(cmd, outdir, seed, tier, tag, list(rextra) + list(extra), timeout=timeout)
         if rc != 0:
             st["broken"].append("harness %s (%s,%s) exited %d: %s" % (cmd, name, tag, rc, out[-300:]))
+            # the process died inside the implementation: the case in flight is a concrete failing input when it dies again alone
+            inf = os.path.join(outdir, "inflight.txt")
+            if os.path.exists(inf) and not replay:
+                case = open(inf).read().strip()
+                keep = os.path.join(vlib.BUILD, "run", "%s-%s-inflight-%s.txt" % (prop, cmd, tag))
+                open(keep, "w").write(case + "\n")
+                rc2, out2 = vlib.run_harness(cmd, outdir + "-inflight", seed, tier, tag, ["--replay", keep] + list(extra), timeout=600)
+                if rc2 != 0:
+                    res.setdefault("died", []).append((tag, case, "harness process died (exit %d, again %d when replayed alone) while the implementation processed this input: %s" % (rc, rc2, out2[-200:].replace("\n", " "))))
             continue
         s = json.load(open(os.path.join(outdir, "stats.json")))
         if name == "gen" or replay:
@@ -146,6 +155,10 @@ def case_line(outdir, cid, fname="cases.txt"):
 def verdict(v, st, prop, res, known_match=None, max_report=3, replay_file="cases.txt"):
     """spec failures -> VIOLATION with replay (or KNOWN-FINDING); else broken proof/correspondence -> no-failing-input-found."""
     reported = 0
+    for tag, case, why in res.get("died", [])[:max_report]:
+        cid = case.split(" ", 1)[0]
+        v.violation("died-%s-%s.txt" % (tag, cid), "# %s: %s\n%s" % (prop, why, case), "%s: %s" % (prop, why[:300]))
+        reported += 1
     for tag, line, outdir in res["spec_fail"]:
         cid = line.split()[0]
         case = case_line(outdir, cid, replay_file)
